@@ -79,7 +79,7 @@ class GuardSite:
         return "%s %s %s -> %s" % (sorted(self.L), self.op, sorted(self.R), sorted(self.codes))
 
 
-def guard_sites(f, extra_failure=None):
+def guard_sites(f, extra_failure=None, _depth=0):
     """all branches of f with exactly one error-only edge."""
     sb = success_blocks(f, extra_failure)
     good = can_reach(f, sb)
@@ -128,7 +128,37 @@ def guard_sites(f, extra_failure=None):
             g.shL = f.shape(c) if c is not None else "?"
             g.shR = ""
         out.append(g)
+    if _depth == 0:
+        out += _helper_guards(f, out, extra_failure)
     return out
+
+
+def _helper_guards(f, own, extra_failure):
+    """guards that live in a static helper of the same file whose result f checks (FORWARD_IF_ERROR(helper(...))): each is
+    re-stated at the caller's checking branch (the caller's edge, the helper's error code / operator / operand anchors), so
+    that a test moved into a helper is still seen by per-function rules.  Parameters of the helper are not mapped back."""
+    prog = getattr(f, "prog", None)
+    if prog is None:
+        return []
+    extra = []
+    for g in own:
+        if g.cond is None:
+            continue
+        callees = {y.get("c") for y in f.walk_resolved(g.cond) if y.get("k") == "call" and y.get("c")} | {a[2:] for a in (g.L | g.R) if a.startswith("c:")}
+        for cn in callees:
+            if cn.endswith("isError"):
+                continue
+            cands = [x for x in prog.functions.get(cn, []) if x.file == f.file and x.static and x is not f]
+            if len(cands) != 1:
+                continue
+            h = cands[0]
+            for hg in guard_sites(h, extra_failure, _depth=1):
+                ng = GuardSite()
+                ng.f, ng.bid, ng.cond, ng.fail, ng.ok, ng.line, ng.neg = f, g.bid, hg.cond, g.fail, g.ok, g.line, hg.neg
+                ng.codes = set(hg.codes) - {"<forwarded>"} or set(g.codes)
+                ng.op, ng.L, ng.R, ng.sL, ng.sR, ng.shL, ng.shR = hg.op, hg.L, hg.R, hg.sL, hg.sR, hg.shL, hg.shR
+                extra.append(ng)
+    return extra
 
 
 class Want:
@@ -308,6 +338,10 @@ def check_inventory(prog, res, rule, entries, extra_failure=None):
                     gs.append(g)
             key = "%s: %s %s %s -> %s" % (fname, (sh or [_fmt(e["L"])])[0], e["op"], (sh or ["", _fmt(e["R"])])[1], "/".join(e["codes"]))
             if not gs:
+                moved = _moved_to_helper(prog, f, e, xf, succ)
+                if moved:
+                    res.ok(rule, key, f.loc, "the same test now lives in %s, which %s calls on every path the test used to cut" % (moved, fname))
+                    continue
                 res.bad(rule, key, f.loc, "check removed or weakened in %s: the test `%s %s %s` with error exit %s is gone "
                         "(operator, operand structure and operand anchors are the frozen signature)"
                         % (fname, (sh or ["?"])[0], e["op"], (sh or ["", "?"])[1], "/".join(e["codes"])))
@@ -322,6 +356,67 @@ def check_inventory(prog, res, rule, entries, extra_failure=None):
                     problems.append("%s() is reachable without passing it" % c)
             res.check(not problems, rule, key, "%s:%s" % (f.file, gs[0].line), "present; still dominates %s%s" % (
                 "success " if e.get("success") else "", ",".join(e.get("calls", [])[:4])), "; ".join(problems))
+
+
+_VAR = None
+
+
+def _vshape(sh):
+    """shape with locals and parameters made indistinguishable: what a test looks like after it has been moved into a helper
+    whose parameters are the caller's locals"""
+    import re
+    return [re.sub(r"\bp\d+\b|\bl\b", "v", x) for x in sh]
+
+
+def _moved_to_helper(prog, f, e, xf, succ):
+    """a frozen guard that is no longer in f: is there, in a function f calls (two levels), a guard with the same error
+    code, operator and operand structure (locals/parameters abstracted), whose call site in f still cuts what the guard cut?"""
+    sh = e.get("shape")
+    if sh is None or not e.get("codes"):
+        return None
+    want = _vshape(sh)
+    seen, level = set(), [f]
+    for depth in range(2):
+        nxt = []
+        for g in level:
+            for cn in g.callees():
+                if cn in seen:
+                    continue
+                seen.add(cn)
+                hc = [x for x in prog.functions.get(cn, []) if x.file.startswith(f.file.rsplit("/", 1)[0])]
+                if len(hc) != 1:
+                    continue
+                h = hc[0]
+                nxt.append(h)
+                for gs in guard_sites(h, xf):
+                    if not (set(e["codes"]) & gs.codes):
+                        continue
+                    cand = _vshape([gs.shL, gs.shR])
+                    same = (gs.op == e["op"] and cand == want) or (gs.op in REL and e["op"] in REL and REL_FLIP[gs.op] == e["op"] and [cand[1], cand[0]] == want)
+                    if not same:
+                        # operands that were locals expanded in the caller are plain parameters in the helper: compare what is
+                        # left once parameters are ignored (constants, fields, callees, macros) - it must be non-empty
+                        np = lambda a: {x for x in a if not x.startswith("p:")}
+                        eL, eR, gL, gR = np(set(e["L"])), np(set(e["R"])), np(gs.sL), np(gs.sR)
+                        if eL | eR:
+                            same = (gs.op == e["op"] and eL == gL and eR == gR) or \
+                                (gs.op in REL and e["op"] in REL and REL_FLIP[gs.op] == e["op"] and eL == gR and eR == gL)
+                    if not same:
+                        continue
+                    roots = f.call_roots(cn) if depth == 0 else [r for c2 in level for r in f.call_roots(c2.name)]
+                    if not roots:
+                        continue
+                    ok = True
+                    if e.get("success") and succ:
+                        ok = f.must_pass(via_roots=roots, targets=[t for t in succ if t not in roots])
+                    for c in e.get("calls", []):
+                        rr = f.call_roots(c)
+                        if rr and c != cn and not f.must_pass(via_roots=roots, targets=rr):
+                            ok = False
+                    if ok:
+                        return cn
+        level = nxt
+    return None
 
 
 def _canon_zero(op, L, R, sh):
